@@ -57,6 +57,8 @@ def model_check(rep, pid, tier):
     rep.extra["call_histories_enumerated"] = r.states
     if not r.ok:
         rep.machinery("leg M: Integrator (no VIEW) violates %s" % r.violated)
+    if pid == "C02":
+        apalache_inductive(rep)
     # sensitivity: the pinned set_pva
     consts = dict(N=3, Cap0=2, WithAlt=False, MaxSets=2, MaxDepth=4, FixedSet=False)
     r = tlc.run_tlc("Integrator", dict(spec="Spec", constants=consts, invariants=INV, view="View"), workers=4)
@@ -64,6 +66,38 @@ def model_check(rep, pid, tier):
                                                              history=tlc.to_jsonable(r.trace[-1][1].get("hist")) if r.trace else None))
     if r.ok:
         rep.vacuity.append("Integrator: FixedSet=FALSE satisfies Frozen2D - the 2D abstraction is vacuous")
+
+
+def apalache_inductive(rep):
+    """Unbounded complement of the capacity discipline: Apalache proves that IndInv of IntegratorCapApa.tla is inductive for ALL table
+    sizes and initial capacities (CInit => IndInv, IndInv /\\ CNext => IndInv').  Integrator => IntegratorCap is checked by TLC."""
+    import shutil, subprocess, tempfile, time
+    exe = shutil.which("apalache-mc")
+    if not exe:
+        rep.vacuity.append("apalache-mc not found: the unbounded capacity invariant was not re-proved in this run")
+        return
+    work = tempfile.mkdtemp(prefix="vapa_")
+    try:
+        for f in ("IntegratorCap.tla", "IntegratorCapApa.tla"):
+            shutil.copy(os.path.join(tlc.SPEC_DIR, f), work)
+        res = {}
+        t0 = time.time()
+        for name, args in (("base", ["--init=CInit", "--length=0"]), ("step", ["--init=IndInit", "--length=1"])):
+            try:
+                p = subprocess.run([exe, "check", "--cinit=ConstInit", "--next=CNext", "--inv=IndInv", "--out-dir=" + os.path.join(work, "out")] + args +
+                                   ["IntegratorCapApa.tla"], cwd=work, capture_output=True, text=True, timeout=300)
+                out = p.stdout + p.stderr
+                res[name] = "OK" if "EXITCODE: OK" in out else ("VIOLATED" if "EXITCODE: ERROR (12)" in out else "FAILED: " + out[-300:])
+            except subprocess.TimeoutExpired:
+                res[name] = "TIMEOUT"
+        res["wall_s"] = round(time.time() - t0, 1)
+        rep.extra["apalache_inductive_invariant"] = dict(module="IntegratorCapApa", invariant="IndInv", constants="NInc, Cap0 symbolic (ConstInit: naturals, Cap0 >= 1)", **res)
+        if "VIOLATED" in res.values():
+            rep.machinery("Apalache: IndInv of IntegratorCapApa is not inductive (%s)" % res)
+        elif res.get("base") != "OK" or res.get("step") != "OK":
+            rep.vacuity.append("Apalache did not complete the inductive proof in this run: %s" % res)
+    finally:
+        shutil.rmtree(work, ignore_errors=True)
 
 
 def simulate(rep, pid, tier, seed):
